@@ -1,0 +1,33 @@
+//go:build verif
+// +build verif
+
+package xpoa
+
+import "github.com/xuperchain/xupercore/kernel/consensus/base"
+
+// This file only exists under the build tag "verif". It adds exported wrappers around the
+// package-private slot schedule for the external verification harness; it changes no behaviour.
+
+// VerifSchedule is a read-only handle on the slot schedule of an xpoa consensus instance.
+type VerifSchedule struct {
+	s *xpoaSchedule
+}
+
+// VerifScheduleOf returns the schedule of an instance created by NewXpoaConsensus (nil otherwise).
+func VerifScheduleOf(c base.ConsensusImplInterface) *VerifSchedule {
+	x, ok := c.(*xpoaConsensus)
+	if !ok || x == nil || x.election == nil {
+		return nil
+	}
+	return &VerifSchedule{s: x.election}
+}
+
+// MinerScheduling wraps xpoaSchedule.minerScheduling (timestamp in unix nanoseconds, length = number of validators).
+func (v *VerifSchedule) MinerScheduling(timestamp int64, length int) (term int64, pos int64, blockPos int64) {
+	return v.s.minerScheduling(timestamp, length)
+}
+
+// Params returns period (milliseconds) and blockNum as the instance parsed them from its configuration.
+func (v *VerifSchedule) Params() (period, blockNum int64) {
+	return v.s.period, v.s.blockNum
+}
